@@ -71,11 +71,14 @@ def _stage_specs(dst):
 
 
 def run_tlc(work, module, cfg, workers="auto", mode_args=None, env=None, timeout=1800,
-            deadlock=False, java_opts=None, tag=None, coverage=False):
+            deadlock=False, java_opts=None, tag=None, coverage=False, extra_files=None):
     """Run TLC on spec/<module>.tla with spec/<cfg> in a scratch copy. Returns TlcResult."""
     tag = tag or (module + "_" + os.path.splitext(os.path.basename(cfg))[0])
     d = work.sub("tlc_" + tag)
     _stage_specs(d)
+    for name, content in (extra_files or {}).items():
+        with open(os.path.join(d, name), "w") as fh:
+            fh.write(content)
     meta = os.path.join(d, "meta")
     cmd = ["java", "-XX:+UseParallelGC", "-Xss64m"]
     if java_opts:
